@@ -558,7 +558,7 @@ func TestC16(t *testing.T) {
 
 // TestC16KnownEmpty re-tests the recorded finding: a zero-length script.
 func TestC16KnownEmpty(t *testing.T) {
-	if ev.Replaying() || ev.Shard() != 0 {
+	if ev.Replaying() || ev.ShardIndex() != 0 {
 		t.Skip()
 	}
 	out, err := shellfuncsfile.FromPerl("empty.pl", bytes.NewReader(nil))
@@ -589,7 +589,7 @@ func TestC16KnownEmpty(t *testing.T) {
 // file (CRLF becomes LF) and when it is eval'd (a lone CR in a here-doc body
 // becomes LF), so the function's output differs from the script's.
 func TestC16KnownRawCR(t *testing.T) {
-	if ev.Replaying() || ev.Shard() != 0 {
+	if ev.Replaying() || ev.ShardIndex() != 0 {
 		t.Skip()
 	}
 	seen := 0
@@ -614,7 +614,7 @@ func TestC16KnownRawCR(t *testing.T) {
 // "__END__ :" for a label and keeps parsing the section, so the function fails
 // while perl on the file ignores the section.
 func TestC16KnownEndSection(t *testing.T) {
-	if ev.Replaying() || ev.Shard() != 0 {
+	if ev.Replaying() || ev.ShardIndex() != 0 {
 		t.Skip()
 	}
 	c := C16Case{FileName: "e.pl", Stmts: []Stmt{{Kind: "argc"}}, End: "__END__\n: it's \"only text\n", Exec: true}
